@@ -56,7 +56,7 @@ def cases(draw):
     base_uri = draw(st.integers(0, 4)) == 0
     return {"draft": d, "schema_state": sstate, "schema": schema, "validator": explicit, "instances": insts,
             "stdin": stdin, "output": output, "error_format": fmt, "base_uri": base_uri,
-            "subprocess": draw(st.integers(0, 39)) == 0}
+            "subprocess": draw(st.integers(0, 39)) == 0, "local_ref": draw(st.integers(0, 3)) == 0}
 
 
 NOT_JSON = '{"unterminated": [1, 2'
@@ -67,6 +67,18 @@ def materialise(case, tmp):
     """Write the scenario's files; return (argv, stdin_text, paths)."""
     spath = os.path.join(tmp, "schema.json")
     schema = case["schema"]
+    if case["base_uri"]:
+        # the schema file does not live where the base URI points: relative references follow the base URI
+        os.makedirs(os.path.join(tmp, "schemas"), exist_ok=True)
+        spath = os.path.join(tmp, "schemas", "main.json")
+    if case.get("local_ref") and not case["base_uri"] and case["schema_state"] == "valid" and isinstance(schema, dict):
+        # a root id of the draft's own kind plus a local reference (no --base-uri): resolved within the document
+        used = case["validator"] or (case["draft"] if "$schema" in schema else 7)     # the class the CLI will use
+        idkw = "id" if used <= 4 else "$id"
+        top = {idkw: "http://ex.test/cli/root.json", "definitions": {"x y": schema}, "$ref": "#/definitions/x%20y"}
+        if "$schema" in schema:
+            top["$schema"] = schema["$schema"]
+        schema = top
     if case["base_uri"] and case["schema_state"] == "valid" and isinstance(schema, dict):
         # move the real schema to a sibling file and refer to it relatively
         with open(os.path.join(tmp, "other.json"), "w") as f:
@@ -220,7 +232,7 @@ class C19(Prop):
             "instance after a bad one, or a schema failure.")
     ASSUMPTIONS = ["the wording of diagnostics is not asserted, only that each names its file and is one unit",
                    "which non-zero status is returned is not asserted"]
-    GATES = {"hostile-file-name": 100, "good-after-bad": 100, "schema:invalid": 20, "schema:missing": 20, "pretty": 200, "base-uri": 50,
+    GATES = {"local-ref": 100, "hostile-file-name": 100, "good-after-bad": 100, "schema:invalid": 20, "schema:missing": 20, "pretty": 200, "base-uri": 50,
              "explicit-validator": 100, "stdin": 30, "inst:notutf8": 30}
     MIN_NONTRIVIAL = 200
 
@@ -294,6 +306,8 @@ class C19(Prop):
             res.labels.append("explicit-validator")
         if case["stdin"] is not None:
             res.labels.append("stdin")
+        if case.get("local_ref") and not case["base_uri"] and case["schema_state"] == "valid":
+            res.labels.append("local-ref")
         for s_ in set(states):
             res.labels.append("inst:" + s_)
         if any(i.get("name") for i in case["instances"]):
